@@ -12,6 +12,11 @@ the environment (server, network, timers) chooses `deliver`, `connDrop`, `sockDe
   with any id in any order, duplicates, malformed bodies, packets that are not answers. `processQueryAnswer` is two
   steps: lookup + delete under the mutex (`deliver`), then the channel send (`chanSend`) — other actions may run in
   between. A send on a full channel would block the reader for ever: recorded as `readerBlocked`.
+* `Connection.Send` writes to the socket WHILE HOLDING `Connection.mu`, the write has no deadline and is not
+  context-aware: `sendBegin` takes the mutex (`writer`), `writeDone`/`writeFail` end the write and release it. While a
+  peer does not read (`canWrite = false`: its TCP window is closed) the write BLOCKS, the mutex stays taken, and every
+  other goroutine that needs it — other callers' `Send`, the ping goroutine, `reconnect()` — waits; the caller inside the
+  write is not in its `select`, so its `timeout` is not enabled. The reader goroutine does not need the mutex.
 * `Connection`: `status`, whether the socket accepts writes, whether a reader goroutine consumes packets, number of
   running reconnect loops, number of spawned-but-not-yet-run `go reconnect()` calls. -/
 namespace Tongo.ClientSM
@@ -29,6 +34,7 @@ inductive Pc where
   | start
   | registered
   | picked (c : Nat)
+  | sending (c : Nat)     -- inside Connection.Send: holds c.mu, the socket write is in progress
   | waiting
   | returning (r : Res)   -- result decided, deferred unregister not yet run
   | returned (r : Res)
@@ -36,7 +42,7 @@ inductive Pc where
 
 /-- the call holds (or may hold) an entry of `queries` -/
 def Pc.active : Pc → Bool
-  | .registered | .picked _ | .waiting | .returning _ => true
+  | .registered | .picked _ | .sending _ | .waiting | .returning _ => true
   | _ => false
 
 inductive Status where
@@ -44,9 +50,19 @@ inductive Status where
   | connected
   deriving DecidableEq, Repr, Inhabited
 
+/-- who holds `Connection.mu` for the duration of a socket write -/
+inductive Writer where
+  | call (k : Nat)
+  | ping
+  deriving DecidableEq, Repr, Inhabited
+
 structure Conn where
   status : Status := .connected
   sockOk : Bool := true
+  /-- the peer reads what is written (its receive window is open); `false`: a write blocks -/
+  canWrite : Bool := true
+  /-- the goroutine that holds `Connection.mu` inside a socket write (`none`: the mutex is free) -/
+  writer : Option Writer := none
   reader : Bool := true
   loops : Nat := 0
   spawned : Nat := 0
@@ -80,7 +96,9 @@ structure State where
 inductive Action where
   | register (k : Nat)
   | pickConn (k : Nat)
-  | send (k : Nat)
+  | sendBegin (k : Nat)       -- Connection.Send: lock c.mu, test the status, start the write
+  | writeDone (k : Nat)       -- the write returned nil: unlock
+  | writeFail (k : Nat)       -- the write returned an error: `go reconnect()`, unlock
   | recv (k : Nat)
   | timeout (k : Nat)
   | unregister (k : Nat)
@@ -88,7 +106,11 @@ inductive Action where
   | chanSend (c : Nat)
   | connDrop (c : Nat)        -- the peer closed: the reader goroutine ends; writes may still "succeed"
   | sockDead (c : Nat)        -- writes fail from now on
-  | pingFail (c : Nat)        -- a Send of the ping goroutine fails: `go reconnect()`
+  | peerStall (c : Nat)       -- the peer stops reading: writes block from now on
+  | peerDrain (c : Nat)       -- the peer reads again
+  | pingBegin (c : Nat)       -- the ping goroutine's Send takes c.mu and starts writing to a live socket
+  | pingDone (c : Nat)        -- ... and its write returns (nil, or an error: `go reconnect()`)
+  | pingFail (c : Nat)        -- a Send of the ping goroutine on a dead socket fails at once: `go reconnect()`
   | silence (c : Nat)         -- the reader's 10 s silence timer fires: it calls reconnect() and ends
   | reconnectStart (c : Nat)  -- first critical section of a spawned reconnect()
   | reconnectOk (c : Nat)     -- setupEncryptedConnection succeeded
@@ -116,17 +138,33 @@ def step (s : State) : Action → Option State
       some { s with queries := set s.queries (idOf k) (some k), pc := set s.pc k .registered }
     else none
   | .pickConn k =>
-    if s.pc k = .registered then
+    if s.pc k = .registered ∧ 0 < nConn then   -- (with no connection Go panics on the index / modulo)
       some { s with pc := set s.pc k (.picked s.nextConn), nextConn := (s.nextConn + 1) % nConn }
     else none
-  | .send k =>
+  | .sendBegin k =>
     match s.pc k with
     | .picked c =>
       let cn := s.conn c
-      if cn.status ≠ .connected then some { s with pc := set s.pc k (.returning .sendErr) }
-      else if cn.sockOk then some { s with pc := set s.pc k .waiting, wire := s.wire ++ [(c, k)] }
+      if cn.writer ≠ none then none                      -- c.mu is taken: this goroutine waits
+      else if cn.status ≠ .connected then some { s with pc := set s.pc k (.returning .sendErr) }
+      else some { s with pc := set s.pc k (.sending c), conn := set s.conn c { cn with writer := some (.call k) } }
+    | _ => none
+  | .writeDone k =>
+    match s.pc k with
+    | .sending c =>
+      let cn := s.conn c
+      if cn.sockOk ∧ cn.canWrite then
+        some { s with pc := set s.pc k .waiting, wire := s.wire ++ [(c, k)],
+                      conn := set s.conn c { cn with writer := none } }
+      else none                                           -- blocked in Write (or about to fail)
+    | _ => none
+  | .writeFail k =>
+    match s.pc k with
+    | .sending c =>
+      let cn := s.conn c
+      if cn.sockOk then none
       else some { s with pc := set s.pc k (.returning .sendErr),
-                         conn := set s.conn c { cn with spawned := cn.spawned + 1 } }
+                         conn := set s.conn c { cn with spawned := cn.spawned + 1, writer := none } }
     | _ => none
   | .recv k =>
     match s.pc k, s.chan k with
@@ -162,24 +200,41 @@ def step (s : State) : Action → Option State
       | some _ => some { s with readerBlocked := true }
   | .connDrop c => some { s with conn := set s.conn c { s.conn c with reader := false } }
   | .sockDead c => some { s with conn := set s.conn c { s.conn c with sockOk := false } }
+  | .peerStall c => some { s with conn := set s.conn c { s.conn c with canWrite := false } }
+  | .peerDrain c => some { s with conn := set s.conn c { s.conn c with canWrite := true } }
+  | .pingBegin c =>
+    let cn := s.conn c
+    if cn.writer = none ∧ cn.status = .connected ∧ cn.sockOk then
+      some { s with conn := set s.conn c { cn with writer := some .ping } }
+    else none
+  | .pingDone c =>
+    let cn := s.conn c
+    if cn.writer = some .ping then
+      if cn.sockOk ∧ cn.canWrite then some { s with conn := set s.conn c { cn with writer := none } }
+      else if cn.sockOk then none                          -- blocked in Write
+      else some { s with conn := set s.conn c { cn with writer := none, spawned := cn.spawned + 1 } }
+    else none
   | .pingFail c =>
     let cn := s.conn c
-    if cn.status = .connected ∧ cn.sockOk = false then
+    if cn.writer = none ∧ cn.status = .connected ∧ cn.sockOk = false then
       some { s with conn := set s.conn c { cn with spawned := cn.spawned + 1 } }
     else none
   | .silence c =>
     let cn := s.conn c
-    if cn.reader then some { s with conn := set s.conn c { reconnectBody cn with reader := false } } else none
+    -- the reader calls reconnect(), which needs c.mu
+    if cn.reader ∧ cn.writer = none then
+      some { s with conn := set s.conn c { reconnectBody cn with reader := false } }
+    else none
   | .reconnectStart c =>
     let cn := s.conn c
-    if cn.spawned > 0 then
+    if cn.spawned > 0 ∧ cn.writer = none then
       some { s with conn := set s.conn c (reconnectBody { cn with spawned := cn.spawned - 1 }) }
     else none
   | .reconnectOk c =>
     let cn := s.conn c
-    if cn.loops > 0 then
-      some { s with conn := set s.conn c { cn with status := .connected, sockOk := true, reader := true,
-                                                   loops := cn.loops - 1 } }
+    if cn.loops > 0 ∧ cn.writer = none then
+      some { s with conn := set s.conn c { cn with status := .connected, sockOk := true, canWrite := true,
+                                                   reader := true, loops := cn.loops - 1 } }
     else none
   | .reconnectFail c => if (s.conn c).loops > 0 then some s else none
 
@@ -263,13 +318,23 @@ def applyAct (idOf : Nat → Id) (nConn : Nat) (ck : Check) (a : Action) (what :
   | some s => { ck with st := s }
   | none => ck.fail ("not enabled: " ++ what)
 
+/-- `Connection.Send` of call k as the checker places it: take the mutex, then the write ends (the scripted servers
+always read, so it never blocks in these histories) -/
+def doSend (idOf : Nat → Id) (nConn : Nat) (ck : Check) (k : Nat) : Check :=
+  let ck := applyAct idOf nConn ck (.sendBegin k) s!"sendBegin {k}"
+  match ck.st.pc k with
+  | .sending c =>
+    if (ck.st.conn c).sockOk then applyAct idOf nConn ck (.writeDone k) s!"writeDone {k}"
+    else applyAct idOf nConn ck (.writeFail k) s!"writeFail {k}"
+  | _ => ck
+
 /-- register, pickConn (counter placed on `c`), send -/
 def advanceToSend (idOf : Nat → Id) (nConn : Nat) (ck : Check) (k c : Nat) : Check :=
   if ck.sent.contains k then ck else
   let ck := applyAct idOf nConn ck (.register k) s!"register {k}"
   let ck := { ck with st := { ck.st with nextConn := c % nConn } }
   let ck := applyAct idOf nConn ck (.pickConn k) s!"pickConn {k}"
-  let ck := applyAct idOf nConn ck (.send k) s!"send {k}"
+  let ck := doSend idOf nConn ck k
   { ck with sent := k :: ck.sent }
 
 /-- how far ahead the history shows a new handshake on connection c (`none` = never): the connection whose next
@@ -365,7 +430,7 @@ def placeOne (idOf : Nat → Id) (nConn : Nat) (ck : Check) (k : Nat) : Want →
         else ck
       -- a write failure spawns `go reconnect()`; when it runs is the scheduler's choice: the checker lets it run only
       -- when the history forces it (a new handshake on this connection)
-      let ck := applyAct idOf nConn ck (.send k) s!"send {k}"
+      let ck := doSend idOf nConn ck k
       let ck := match ck.st.pc k with
         | .returning .sendErr => ck
         | _ => ck.fail s!"send of call {k} did not fail"
